@@ -17,6 +17,10 @@ for d in sorted((VERIF / "seeded").glob("C*")):
         # written against a tree that has since been repaired in a way that makes the change harmless or inapplicable
         print(f"{prop} seeded/{d.name:38s} SUPERSEDED     by fix {meta['superseded_by_fix']}: not replayed")
         continue
+    if meta.get("outside_quantifiers"):
+        # confirmed as a real change, but what it needs lies outside every property's quantifier: kept for the record, not replayed
+        print(f"{prop} seeded/{d.name:38s} OUT-OF-SCOPE   {meta['outside_quantifiers'][:100]}")
+        continue
     if (not want or prop in want) and (not names or d.name in names or "seeded/" + d.name in names):
         todo.append({"name": "seeded/" + d.name, "property": prop, "patch": str(d / "patch.diff")})
 
